@@ -269,6 +269,9 @@ func runRoute(t *testing.T, c spec.Case, e Em) {
 				if it.LateReadMs > 0 {
 					o.Err = errStr(vp.MuxDialOneWay(dm, id, nonceD, it.Len))
 					o.PeerID, o.PeerNonce, o.PayloadOK = id, nonceA, true // (a one-way sender learns nothing about its peer)
+				} else if it.DialHoldMs > 0 {
+					x, err := vp.MuxDialHeld(dm, id, nonceD, it.Len, time.Duration(it.DialHoldMs)*time.Millisecond)
+					o.PeerID, o.PeerNonce, o.PayloadOK, o.Extra, o.Err = x.PeerID, x.PeerNonce, x.PayloadOK, x.Extra, errStr(err)
 				} else {
 					x, err := vp.MuxDial(dm, id, nonceD, it.Len)
 					o.PeerID, o.PeerNonce, o.PayloadOK, o.Extra, o.Err = x.PeerID, x.PeerNonce, x.PayloadOK, x.Extra, errStr(err)
